@@ -55,6 +55,12 @@ func (m *Machine) mkError(msg value) value {
 
 func nilError() value { return iface{} }
 
+// dirReg: a directory of the scanner stub: documents in file order; badAt[i]=k places an unreadable file before document k
+type dirReg struct {
+	infos []value
+	badAt []int
+}
+
 func strSlice(xs []string) value {
 	if xs == nil {
 		return []value(nil)
@@ -256,6 +262,12 @@ func (m *Machine) formatOne(v fmtVerb, a value) value {
 			if v.verb == 'd' && v.plain && x.k != types.Bool {
 				return decStr(x.t, kindSigned(x.k))
 			}
+			if v.verb == 't' && v.plain && x.k == types.Bool {
+				if m.truth(x, "%t") {
+					return "true"
+				}
+				return "false"
+			}
 			return &symStr{segs: []seg{{k: segOpaque}}}
 		case bool, int, int8, int16, int32, int64, uint, uint8, uint16, uint32, uint64, uintptr, float32, float64:
 			return fmt.Sprintf(v.spec, x)
@@ -362,9 +374,61 @@ func registerIntrinsics(e *Engine) {
 	for _, n := range []string{"fmt.Printf", "fmt.Println", "fmt.Print", "fmt.Fprintf", "fmt.Fprintln", "fmt.Fprint"} {
 		name := n
 		in[name] = func(fr *frame, args []value) value {
-			fr.m.printed = append(fr.m.printed, name)
+			m := fr.m
+			m.printed = append(m.printed, name)
+			// standard output is an environment stub that remembers the text (read back by vf_CaptureStdout)
+			var text value
+			switch name {
+			case "fmt.Printf":
+				text = m.sprintf(args[0], variadic(args[1]))
+			case "fmt.Println":
+				text = strConcat(m.sprint(variadic(args[0]), true), "\n")
+			case "fmt.Print":
+				text = m.sprint(variadic(args[0]), false)
+			}
+			if text != nil {
+				if m.stdout == nil {
+					m.stdout = ""
+				}
+				m.stdout = strConcat(m.stdout, text)
+			}
 			return tuple{0, nilError()}
 		}
+	}
+	// the manifest scanner (file I/O, the cli-runtime builder) is environment: it returns the documents of a
+	// directory registered with vf_RegisterDir, in order; an unreadable file is an error entry that is collected
+	// (the builder's ContinueOnError) or ends the scan with the documents read so far (stopOnErr)
+	in["github.com/np-guard/netpol-analyzer/pkg/manifests/fsscanner.GetResourceInfosFromDirPath"] = func(fr *frame, args []value) value {
+		m := fr.m
+		paths := args[0].([]value)
+		if len(paths) != 1 {
+			panic(unsupported("scanner stub: exactly one path expected"))
+		}
+		path := m.concreteString(paths[0], "scanned path")
+		reg := m.dirs[path]
+		if reg == nil {
+			panic(unsupported("scanner stub: directory not registered with vf_RegisterDir: " + path))
+		}
+		stop, ok := args[2].(bool)
+		if !ok {
+			panic(unsupported("scanner stub: symbolic stopOnErr"))
+		}
+		infos, errs := []value{}, []value{}
+		for i := 0; i <= len(reg.infos); i++ {
+			for _, b := range reg.badAt {
+				if b == i {
+					e := m.mkError(fmt.Sprintf("error parsing %s/%03d-broken.yaml: yaml: did not find expected node content", path, i))
+					if stop {
+						return tuple{infos, []value{e}}
+					}
+					errs = append(errs, e)
+				}
+			}
+			if i < len(reg.infos) {
+				infos = append(infos, reg.infos[i])
+			}
+		}
+		return tuple{infos, errs}
 	}
 	// --- errors
 	in["errors.Is"] = func(fr *frame, args []value) value {
